@@ -43,7 +43,7 @@ def make_block_case(r2, W):
     return ("\n".join(lines) + "\n").encode(), left, right
 
 
-def make_case(r2, maxlen, shared, alpha=None):
+def make_case(r2, maxlen, shared, alpha=None, wide=False):
     nh = r2.choice([1, 1, 2])
     lines = ["diff --git a/alphaZ1Z.rs b/alphaZ1Z.rs", "index 1111111..2222222 100644", "--- a/alphaZ1Z.rs", "+++ b/alphaZ1Z.rs"]
     left, right = [], []
@@ -52,7 +52,10 @@ def make_case(r2, maxlen, shared, alpha=None):
         body = [r2.choice(["minus", "plus", "zero"]) for _ in range(r2.randint(1, 6))]
         nm = sum(c in ("minus", "zero") for c in body)
         np_ = sum(c in ("plus", "zero") for c in body)
-        lines.append(f"@@ -{10 + hi * 50},{nm} +{12 + hi * 50},{np_} @@ fragZ{hi + 1}Z")
+        # hunk positions: the two sides may need different numbers of digits, and a side may gain a digit inside the hunk
+        # (only where the panels are wide enough for the wider gutters: the quantifier starts at the narrowest width that fits them)
+        so, sn = r2.choice([(10, 12), (10, 12), (9997, 97), (98, 3), (99998, 5), (7, 9998), (997, 999)] if wide else [(10, 12), (98, 3)])
+        lines.append(f"@@ -{so + hi * 50},{nm} +{sn + hi * 50},{np_} @@ fragZ{hi + 1}Z")
         base = gen_text(r2, maxlen, alpha)
         for c in body:
             if shared and r2.random() < 0.6:
@@ -180,7 +183,7 @@ def run(tier):
             data, left, right = make_block_case(r2, W)
         else:
           data, left, right = make_case(r2, maxlen if W >= wmin else min(maxlen, 12), shared=(i % 2 == 0),
-                                      alpha=None if W >= wmin else NARROW_ALPHA)
+                                      alpha=None if W >= wmin else NARROW_ALPHA, wide=W >= 40)
         args = gitskin.rs_args(W) + ["--side-by-side", "--wrap-max-lines", "unlimited" if limit < 0 else str(limit)] + extra
         return data, left, right, core.run_delta(args, data, timeout=15, mem_kb=2_000_000)
 
